@@ -144,6 +144,10 @@ class Stairs:
             values = values.replace([np.inf], np.nan)
             warnings.warn("Infinity values detected and have been converted to NaN")
 
+        if values.index.dtype.kind in "mM" and values.index.unit != "ns":
+            # step points are kept at nanosecond resolution: bounds between coarser ticks would be truncated later
+            values = values.set_axis(values.index.as_unit("ns"))
+
         new_instance = cls(closed=closed)
         new_instance.initial_value = initial_value
         new_instance._data = values.to_frame("value")
